@@ -170,23 +170,28 @@ fn scales_sweep(o: &mut Outcome, c19: bool, n_random: usize, seed: u64) {
 
 pub fn c08(quick: bool, seed: u64) -> Outcome {
     let mut o = Outcome::new(
-        "complete generator over all 4095 non-empty scales x per-scale input list (every half-semitone grid point k/24, k=0..240, with offsets {0,+-1e-6,+-2e-5}: all decision boundaries between any two notes; out-of-range and non-finite values; N seed-derived uniform values, N = 2000 quick / 20000 thorough); a fresh quantizer per conversion; acceptance predicate (allowed, in the one-semitone-below window or nearest, ties within 10 uV) and monotonicity along the sorted inputs. Thorough adds the complete 10,000,001-value microvolt sweep for the chromatic scale, the 12 singletons, {E,B} and 32 seed-chosen scales. non-trivial = conversion of a non-chromatic scale in octave >= 1 whose note is not in the input's own octave, or an input within 1/1000 semitone of a half-semitone grid point (counted; distinct by construction: each (scale,input) pair occurs once)",
+        "complete generator over all 4095 non-empty scales x per-scale input list (every half-semitone grid point k/24, k=0..240, with offsets {0,+-1e-6,+-2e-5}: all decision boundaries between any two notes; out-of-range and non-finite values; N seed-derived uniform values, N = 2000 quick / 20000 thorough); a fresh quantizer per conversion; acceptance predicate (allowed, in the one-semitone-below window or nearest, ties within 10 uV) and monotonicity along the sorted inputs. Plus the complete 10,000,001-value microvolt sweep for the chromatic scale, {E,B} and 2 seed-chosen scales (quick) / the chromatic scale, {E,B}, the 12 singletons and 114 seed-chosen scales (thorough). non-trivial = conversion of a non-chromatic scale in octave >= 1 whose note is not in the input's own octave, or an input within 1/1000 semitone of a half-semitone grid point (counted; distinct by construction: each (scale,input) pair occurs once)",
     );
     o.assumptions.push("tie tolerance 10 uV at every decision boundary (the quantizer works on an integer microvolt grid)".into());
     scales_sweep(&mut o, false, if quick { 2_000 } else { 20_000 }, seed);
     if o.stats.get("scales") == 4095 {
         o.exhaustive = !quick;
         if !quick {
-            o.exhaustive_note = "all 4095 scales (inputs sampled per scale); complete microvolt sweep of [0,10] V for the listed 46 scales".into();
+            o.exhaustive_note = "all 4095 scales (inputs sampled per scale); complete microvolt sweep of [0,10] V for 128 scales".into();
         }
     }
-    if !quick && !o.failed() {
+    if !o.failed() {
+        // complete 10,000,001-value microvolt sweeps: chromatic, {E,B}, the 12 singletons and seed-chosen scales
+        // (quick: chromatic + {E,B} + 2 seed-chosen; thorough: 128 scales)
         let mut masks: Vec<u16> = vec![0xfff, (1 << 4) | (1 << 11)];
-        for n in 0..12 {
-            masks.push(1 << n);
+        if !quick {
+            for n in 0..12 {
+                masks.push(1 << n);
+            }
         }
+        let want = if quick { 4 } else { 128 };
         let mut mix = Mix(seed ^ 0x5CA1E5);
-        while masks.len() < 46 {
+        while masks.len() < want {
             let m = 1 + mix.below(4095) as u16;
             if !masks.contains(&m) {
                 masks.push(m);
